@@ -11,6 +11,9 @@ witness in `Props/C05.lean`):
                 JobConfig `n` with that uid;
 * E-Policy      `hasPolicy = false → startAfter = none` (startAfter lives inside the start policy);
 * E-NoUnfinish  the only external status mutation is `terminal := true`;
+* E-SpecEdit    the only external spec mutation is `editStartAfter`: the user sets, clears,
+                postpones or advances `startAfter` of a Job that has a start policy and is
+                authoritatively not started (what the validating webhook admits);
 * E-ErrNotApplied  injected faults are `err`, `conflict`, `timeout` (a failed write was not applied);
 * no external start of a Job (only the queue controller sets `startTime`).
 -/
@@ -31,6 +34,8 @@ inductive Act where
   | finishJob (name : String)         -- job controller: phase becomes terminal
   | markRejected (name : String)      -- job controller: rejected Job → AdmissionError (terminal)
   | removeJob (name : String)
+  /-- the user edits `spec.startPolicy.startAfter` of a not-yet-started Job with a start policy -/
+  | editStartAfter (name : String) (t : Option Int)
   | setMaxConc (name : String) (m : Int)
   | tick (d : Int)
   | deliverJob | deliverJC | notifyStore | notifyCtrl | resync
@@ -47,6 +52,7 @@ def step (s : Sys) : Act → Sys
   | .finishJob n => mutateJob s n finish
   | .markRejected n => mutateJob s n finish
   | .removeJob n => removeJob s n
+  | .editStartAfter n t => editStartAfter s n t
   | .setMaxConc n m => setMaxConc s n m
   | .tick d => { s with clock := s.clock + d }
   | .deliverJob => deliverJob s
@@ -141,10 +147,16 @@ def goodNote : Note → Prop
   | .update o n => o.terminal = true → n.terminal = true
   | .delete _ => True
 
-/-- the parts of a Job that never change -/
+/-- the whole spec/metadata part of a Job version (what a controller write leaves unchanged) -/
 def sameSpec (a b : JobV) : Prop :=
   a.label = b.label ∧ a.ownerName = b.ownerName ∧ a.ownerUid = b.ownerUid ∧ a.created = b.created ∧
   a.hasPolicy = b.hasPolicy ∧ a.policy = b.policy ∧ a.startAfter = b.startAfter
+
+/-- the parts of a Job that never change over its life: everything in `sameSpec` except
+`startAfter`, which the user may edit while the Job is not started (`Act.editStartAfter`) -/
+def sameFixed (a b : JobV) : Prop :=
+  a.label = b.label ∧ a.ownerName = b.ownerName ∧ a.ownerUid = b.ownerUid ∧ a.created = b.created ∧
+  a.hasPolicy = b.hasPolicy ∧ a.policy = b.policy
 
 /-- the global invariant -/
 structure Inv (s : Sys) : Prop where
@@ -157,9 +169,9 @@ structure Inv (s : Sys) : Prop where
   good : ∀ n ∈ pending s, goodNote n
   verWf : ∀ j, Ver s j → wfJob j
   verRv : ∀ j, Ver s j → j.rv ≤ s.rv
-  /-- per name the spec is fixed and (name, rv) identifies the version -/
+  /-- per name the spec (but for `startAfter`) is fixed and (name, rv) identifies the version -/
   verFn : ∀ j1 j2, Ver s j1 → Ver s j2 → j1.name = j2.name →
-            sameSpec j1 j2 ∧ (j1.rv = j2.rv → j1 = j2)
+            sameFixed j1 j2 ∧ (j1.rv = j2.rv → j1 = j2)
   /-- keys of the independent queue only name unlabelled Jobs -/
   ind : ∀ k ∈ s.indQ.keys, ∀ j, Ver s j → j.name = keyName k → j.label = none
   faultsOk : ∀ f ∈ s.faults, okFault f
